@@ -1,4 +1,4 @@
-\* flush / close of ONE Elasticsearch store under every outcome of the _bulk requests (two chunks, one retry), re-open after a failed close;
+\* flush / close of ONE Elasticsearch store under every outcome of the _bulk requests (4 records = two chunks, one retry), re-open after a failed close;
 \* repaired variant (records carry a client-generated _id): every invariant holds
 SPECIFICATION Spec
 CONSTANTS
@@ -16,10 +16,10 @@ CONSTANTS
   MaxRetries = 1
   Alpha <- AlphaAll
   RefreshAlpha <- RBoth
-  MaxRecs = 3
+  MaxRecs = 4
   MaxClock = 0
   MaxMeta = 0
-  MaxCalls = 3
+  MaxCalls = 4
   MaxOpens = 2
   ExplicitRel = 5
   ExplicitAbs = 7
